@@ -227,6 +227,8 @@ def to_tt_rmax_list(ob, d, shape):
     kw = {'eps': SymScalar(eps, 'float', 'float'), 'rmax': list(rm)}
     if shape:
         kw['shape'] = list(N)
+        ex.register_arg(kw['shape'], 'shape')      # the caller's list: must be neither written nor kept by the object
+    ex.register_arg(kw['rmax'], 'rmax')
     x = ex.instantiate(H.tt_class(ex), [A], kw)
     ob.wf(x)
     f = fields(ob, x)
